@@ -7,7 +7,8 @@ From ASV Require Import Base Loc.
 
 (* ---------- features as seen by the layout code ---------- *)
 (* fkind: 0 protocluster, 1 candidate cluster, 2 subregion.
-   fcore: core location (protoclusters and candidate clusters both answer hasattr(core_start)).
+   fcore: core location (protoclusters and candidate clusters both have one; only a protocluster's
+   core is drawn separately from its extent).
    fsingle: candidate.kind == SINGLE.  fprod: the number standing for the product / label string
    (0 = empty string); for protoclusters the order of the numbers is the order of the strings. *)
 Record feat := mkFeat { fid : Z; fkind : Z; floc : loc; fcore : option loc; fsingle : bool; fprod : Z }.
@@ -123,11 +124,15 @@ Definition area_offset (a : area) (d : Z) : area :=
 (* clone(): both the original and the copy carry the group id (g = id(self), never 0) *)
 Definition with_group (a : area) (g : Z) : area := if a_group a =? 0 then set_group a g else a.
 
+(* the core that adjust_cross_origin_area looks at: `if not isinstance(feature, Protocluster)` takes
+   the generic branch for sub-regions AND candidate clusters (a Protocluster always has a core) *)
+Definition proto_core (f : feat) : option loc := if fkind f =? K_Proto then fcore f else None.
+
 (* adjust_cross_origin_area: returns the modified area and the optional extra area *)
 Definition adjust_cross_origin_area (a : area) (f : feat) (region_crosses : bool) (length g : Z)
   : res (area * option area) :=
   if negb (fcrosses f && area_crosses a) then Err E_Value else
-  match fcore f with
+  match proto_core f with
   | None =>
     if region_crosses then
       let a1 := set_end a (a_end a + length) in
@@ -146,7 +151,7 @@ Definition adjust_cross_origin_area (a : area) (f : feat) (region_crosses : bool
       else
         let a0 := with_group a g in
         Ok (set_ne (set_end a0 length) length, Some (set_ns (set_start a0 0) 0))
-    else if length - cs <? ce then
+    else if fstart f <=? cs then   (* elif feature.core_start >= feature.start *)
       if region_crosses then Ok (set_ne a (a_ne a + length), None)
       else
         let a0 := with_group a g in
@@ -296,26 +301,11 @@ Fixpoint count_drawn (n : Z) (k : Z) (l : list area) : option Z :=
 Definition count_kind (k : Z) (fs : list feat) : Z := zlen (filter (fun f => fkind f =? k) fs).
 
 (* verdict: [all_ok; extent_ok; disjoint_ok; complete_ok; chain_ok_protoclusters_and_subregions;
-             chain_ok_candidates] *)
-(* finding classes (complement of the guards of the range theorems) *)
-Definition core_simple (f : feat) : bool :=
-  match fcore f with Some core => negb (loc_fend core <? loc_fstart core) | None => false end.
-(* a candidate cluster that has to be adjusted while its core does not cross the origin *)
-Definition class_candidate_core (extend : bool) (cands : list feat) : bool :=
-  existsb (fun f => extend && fcrosses f && core_simple f) cands.
-(* the side of the core is judged by length - core_start < core_end; it is the pre-origin side
-   exactly when core_start >= feature.start *)
-Definition side_misjudged (n : Z) (f : feat) : bool :=
-  match fcore f with
-  | Some core => core_simple f && xorb (n - loc_fstart core <? loc_fend core) (fstart f <=? loc_fstart core)
-  | None => false
-  end.
-Definition class_core_side (extend : bool) (n : Z) (fs : list feat) : bool :=
-  existsb (fun f => extend && fcrosses f && side_misjudged n f) fs.
-
+             chain_ok_candidates]
+   (the finding classes core_side_heuristic and candidate_end_unshifted were repaired in the code: no
+   class flag is computed any more, a failing chain is a violation) *)
 Definition spec_areas (rloc : loc) (n : Z) (circ : bool) (subs cands protos : list feat) (out : list area) : list Z :=
   let rng := range0 rloc n in
-  let extend := extend_over_origin rloc n circ in
   let include := filter (fun c => nonempty subs || negb (fsingle c)) cands in
   let e := forallb (extent_ok rng) out in
   let d := pairwise extents_disjoint out in
@@ -326,8 +316,7 @@ Definition spec_areas (rloc : loc) (n : Z) (circ : bool) (subs cands protos : li
            end in
   let ch := forallb (fun a => (a_kind a =? K_Cand) || chain_ok a) out in
   let chc := forallb (fun a => negb (a_kind a =? K_Cand) || chain_ok a) out in
-  eBool (e && d && c && ch && chc) ++ eBool e ++ eBool d ++ eBool c ++ eBool ch ++ eBool chc
-  ++ eBool (class_candidate_core extend include) ++ eBool (class_core_side extend n protos).
+  eBool (e && d && c && ch && chc) ++ eBool e ++ eBool d ++ eBool c ++ eBool ch ++ eBool chc.
 
 (* rows returned by pack: pairwise non-overlapping contents, and all areas placed exactly once
    (ids of the rows, concatenated and sorted, are the ids of the input, sorted) *)
@@ -429,7 +418,7 @@ Definition run_C19 (fn : Z) (l : list Z) : list Z :=
     match dRegion l with
     | Some ((n, circ, rloc, subs, cands, protos), out) =>
       match dResHead out with
-      | Some (Some _, []) => [1; 1; 1; 1; 1; 1; 0; 0]
+      | Some (Some _, []) => [1; 1; 1; 1; 1; 1]
       | Some (None, r) =>
         match dList dArea r with
         | Some (areas, []) => spec_areas rloc n circ subs cands (unique_protoclusters rloc protos) areas
@@ -440,7 +429,7 @@ Definition run_C19 (fn : Z) (l : list Z) : list Z :=
     match dPair dRegion (dList dLoc) l with
     | Some ((n, circ, rloc, subs, cands, protos, genes), out) =>
       match dResHead out with
-      | Some (Some _, []) => [1; 1; 1; 1; 1; 1; 0; 0; 1; 0]
+      | Some (Some _, []) => [1; 1; 1; 1; 1; 1; 1; 0]
       | Some (None, s :: e :: r) =>
         match dPair (dList dOrf) (dList dArea) r with
         | Some ((orfs, areas), []) =>
